@@ -110,7 +110,7 @@ func (m *MVCCHelper) Trash(version int64) error {
 			return it.Error()
 		}
 		//如果进入一个新的key, 这个key 忽略，不删除，也就是至少保留一个
-		if !bytes.HasPrefix(it.Key(), perfixkey) {
+		if !bytes.HasPrefix(it.Key(), perfixkey) || len(it.Key()) != len(perfixkey)+20 {
 			perfixkey = cutVersion(it.Key())
 			if perfixkey == nil {
 				perfixkey = []byte("--.xxx.--")
@@ -407,7 +407,7 @@ func getVersionString(key []byte) (string, error) {
 func cutVersion(key []byte) []byte {
 	for i := len(key) - 1; i >= 0; i-- {
 		if key[i] == '.' {
-			d := make([]byte, i)
+			d := make([]byte, i+1)
 			copy(d, key[0:i+1])
 			return d
 		}
